@@ -167,6 +167,7 @@ def ops_alphabet(njobs_max=3):
     for k in range(njobs_max):
         ops.append(("finish", k))
         ops.append(("kill", k))
+    ops.append(("drop", 0))
     ops.append(("clock",))
     for w in (1, 2):
         ops.append(("disconnect", w))
@@ -187,6 +188,10 @@ def apply(world, op):
         if kind == "finish":
             return world.finish(world.added[op[1]])
         world.kill(world.added[op[1]])
+    elif kind == "drop":
+        if op[1] >= len(world.added):
+            return False
+        world.conns[1].rpc_qdrop([world.added[op[1]]])
     elif kind == "clock":
         world.advance()
     elif kind == "disconnect":
